@@ -30,7 +30,9 @@ def simple_accessor(names, i):
     n = names[i]
     if not isinstance(n, str) or not _IDENT.match(n) or n in reserved():
         return None
-    if sum(1 for m in names if isinstance(m, str) and m.lower() == n) != 1:
+    # unique after the documented sanitisation of every other stored name
+    bases = [re.sub(r"[^a-z0-9_]+", "_", str(m).lower()).strip("_") for m in names if m is not None]
+    if sum(1 for b in bases if b == n or b == "c" + n) != 1:
         return None
     if n.startswith("col") or "__" in n:
         return None
